@@ -282,6 +282,36 @@ func runC19(c *Ctx) {
 			distinct[fmt.Sprint("forged", kind, s.role)] = true
 		}
 	}
+	// revocation lists with a revoke-all entry among older and newer per-key entries (account level and export level): every
+	// entry the object holds is in the token and comes back - which entries still matter is the reader's business
+	for _, revs := range []map[string]int64{{"*": 1600000000, "UOLD": 1500000000, "UNEW": 1700000000}, {"*": 5, "UA": 5, "UB": 4}, {"*": 1}, {"UA": 1, "UB": 2}} {
+		x := v1.NewAccountClaims(kr.by["account"].pub)
+		x.Revocations = v1.RevocationList{}
+		ex := &v1.Export{Subject: "rev.x", Type: v1.Stream, Revocations: v1.RevocationList{}}
+		for k, t := range revs {
+			x.Revocations[k] = t
+			ex.Revocations[k] = t + 1
+		}
+		x.Exports.Add(ex)
+		tok, err := x.Encode(kr.by["operator"].kp)
+		c.sum.Evaluations++
+		c.sum.ImplChecks++
+		if err != nil {
+			continue
+		}
+		d, derr := v1.DecodeAccountClaims(tok)
+		inp := map[string]interface{}{"kind": "account", "token": tok, "revocations": revs}
+		if derr != nil {
+			inp["error"] = derr.Error()
+			c.violation("C19: the v1 decoder refuses a token its own encoder produced", inp)
+			continue
+		}
+		if want, got := canonString(reflect.ValueOf(x).Elem()), canonString(reflect.ValueOf(d).Elem()); want != got {
+			inp["diff"] = firstDiff(want, got)
+			c.violation("C19: v1 decode does not preserve all fields", inp)
+		}
+		c.count("v1_revocations_with_wildcard")
+	}
 	// values the version-1 encoder has no spelling for (an export / import kind that is neither stream nor service):
 	// Encode may refuse them - it must not write a token that its own decoder then refuses
 	for _, bad := range []int{3, 7, -1, 255, 1 << 20} {
